@@ -51,6 +51,13 @@ THEOREMS = [
     "PorepyVerif.C18.rt0_exact_tetrahedron",
     "PorepyVerif.C18.mvem_exact_triangle",
     "PorepyVerif.C18.mvem_exact_tetrahedron",
+    "PorepyVerif.C18.rt0_global_mass_spd",
+    "PorepyVerif.C18.mvem_global_mass_spd",
+    "PorepyVerif.C18.saddle_point_unique",
+    "PorepyVerif.C18.div_full_row_rank",
+    "PorepyVerif.C18.mixed_linear_exact_global",
+    "PorepyVerif.C18.rt0_linear_exact_global",
+    "PorepyVerif.C18.project_flux_exact_global",
 ]
 LEAN_MODULES = ["PorepyVerif.C18.Props"]
 AUDIT = "PorepyVerif/C18/Audit.lean"
@@ -68,8 +75,11 @@ TRUSTED = [
     "diagonals, cell_face_to_opposite_node bookkeeping, map_grid rotation and SecondOrderTensor.rotate (all covered by the correspondence of the assembled "
     "global mass matrices and by the oracle, not by proof)",
     "the driver tabulates intermediate matrices (fromTab (tabulate A) = A extensionally) before composing the model functions",
-    "global exactness = local exactness (proved) + unique solvability of the saddle-point system (hypothesis, observed: the sparse solve succeeds and "
-    "reproduces the exact solution); floating-point rounding of the real code (tolerance 1e-8 in the oracle, 1e-10 relative in the correspondence)",
+    "global exactness is proved (rt0_linear_exact_global / mixed_linear_exact_global: local exactness + saddle_point_unique) under hypotheses that are "
+    "checked on every generated real grid by the oracle, not proved for the grid constructors: the spanning-tree certificate of div_full_row_rank is "
+    "computed by BFS and verified against the real div matrix, every face belongs to a cell, face centres / normals are shared by the two cells of a face, "
+    "the divergence theorem holds per cell; floating-point rounding of the real code and of the sparse solve (tolerance 1e-8 relative in the oracle, "
+    "1e-10 relative in the correspondence)",
     "the divergence theorem on each cell (hypothesis DivThm of the exactness theorems) is proved for explicit simplices in dimension 1, 2, 3 and is checked "
     "numerically on the real grid geometry by the oracle (it is property C19)",
 ]
@@ -77,7 +87,9 @@ EXPLANATION = ("CORE (partial): theorems over Q for every dimension d: the RT0 l
                "representation, is PSD, and SPD on non-degenerate simplices; the exact Darcy fluxes of a linear pressure satisfy the local face rows of "
                "the saddle-point system for RT0 and MVEM, the cell rows (divergence) hold, the RT0 interpolant and faces_to_cell reproduce constant velocities; "
                "MVEM projector consistency, symmetry, SPD. Specialised to segment / triangle / tetrahedron with explicit normals, the as-coded 1x1, 2x2, 3x3 inverses "
-               "and Sylvester's criterion. Not proved: global unique solvability, numpy glue, rounding; these are bridged by the oracle (real solves) and the "
+               "and Sylvester's criterion. Grid level: assembled RT0 / MVEM mass matrices SPD, uniqueness of the saddle-point solve for SPD M and full-row-rank B, full row rank of "
+               "-cell_faces^T from a spanning-tree certificate (connected grid with a Dirichlet face), hence every solution of the assembled system IS the exact one; "
+               "project_flux exact per cell from the global flux vector. Not proved: that the grid constructors satisfy the certificate / geometric hypotheses (checked per grid by the oracle), numpy glue, rounding; these are bridged by the oracle (real solves) and the "
                "correspondence (real local and assembled mass matrices vs. exact rational model).")
 ASSUMPTIONS = ["magnitudes are powers of two (exact scaling in binary64) within 2^-53..2^27 for K and 2^-10..2^10 for coordinates; no under/overflow occurs in this range",
                "simplex quality is bounded below by the generator (|det| of the edge matrix >= 1/8 of the product of edge scales) so that class-T tolerances are meaningful",
@@ -574,6 +586,44 @@ def oracle_local(case):
     return None
 
 
+def tree_certificate(B):
+    """Spanning-tree certificate of theorem div_full_row_rank, computed by BFS on the REAL div matrix B (cells x faces) and verified
+    literally as stated in the theorem. Returns None if the certificate holds, else a description."""
+    nc, nf = B.shape
+    nz = [np.nonzero(B[:, F])[0] for F in range(nf)]
+    if any(len(z) == 0 for z in nz):
+        return "a face belongs to no cell"
+    roots = [(int(z[0]), F) for F, z in enumerate(nz) if len(z) == 1]
+    if not roots:
+        return "no boundary face"
+    root, root_face = roots[0]
+    rank, parent, link = {root: 0}, {}, {}
+    frontier = [root]
+    while frontier:
+        nxt = []
+        for c in frontier:
+            for F in np.nonzero(B[c, :])[0]:
+                if len(nz[F]) == 2:
+                    o = int(nz[F][0] if nz[F][1] == c else nz[F][1])
+                    if o not in rank:
+                        rank[o], parent[o], link[o] = rank[c] + 1, c, int(F)
+                        nxt.append(o)
+        frontier = nxt
+    if len(rank) != nc:
+        return f"grid not connected through interior faces ({len(rank)} of {nc} cells reached)"
+    # the hypotheses of the theorem, literally
+    if B[root, root_face] == 0 or any(B[c, root_face] != 0 for c in range(nc) if c != root):
+        return "root face condition fails"
+    for c in range(nc):
+        if c == root:
+            continue
+        if B[c, link[c]] == 0 or not rank[parent[c]] < rank[c] or any(B[o, link[c]] != 0 for o in range(nc) if o not in (c, parent[c])):
+            return f"link condition fails at cell {c}"
+    if np.linalg.matrix_rank(B) != nc:
+        return "numerical rank deficient"
+    return None
+
+
 def oracle_grid(case):
     case = eff(case)
     r = grid_real(case)
@@ -591,6 +641,11 @@ def oracle_grid(case):
         if (np.abs(sn.sum(axis=1)).max() > 1e-10 * np.abs(sn).max()
                 or np.abs((sd.face_centers[:, faces] - sd.cell_centers[:, [c]]) @ sn.T - sd.cell_volumes[c] * Pt).max() > 1e-10 * sd.cell_volumes[c]):
             return {"what": f"grid geometry violates the divergence theorem on cell {c} (hypothesis of the theorems; see C19)", "key": f"grid-geometry-{tag}"}
+        # hypothesis hXF of rt0_linear_exact_global: the centre of face F is the mean of its nodes = (sum of cell nodes - opposite node) / d
+        xs = sd.nodes[:, opp]
+        fc_model = (xs.sum(axis=1, keepdims=True) - xs) / d
+        if np.abs(fc_model - sd.face_centers[:, faces]).max() > 1e-10 * max(float(np.abs(sd.nodes).max()), 1e-300):
+            return {"what": f"face centres of cell {c} are not the means of the face nodes (hypothesis hXF of rt0_linear_exact_global)", "key": f"grid-geometry-facecentre-{tag}"}
     for name in ("rt0", "mvem"):
         g = r[name]
         if "exc" in g:
@@ -601,6 +656,10 @@ def oracle_grid(case):
             return {"what": bad[0] + f" on grid d={d} n={case['n']}", "key": f"grid-{name}-mass-{bad[1]}-{tag}"}
         if np.abs(g["div"] + sd.cell_faces.T.toarray()).max() != 0:
             return {"what": f"{name.upper()} div matrix != -cell_faces^T", "key": f"grid-{name}-div-{tag}"}
+        cert = tree_certificate(g["div"])
+        if cert is not None:
+            return {"what": f"{name.upper()} div matrix: {cert} (hypothesis of div_full_row_rank / unique solvability) on grid d={d} n={case['n']}",
+                    "key": f"grid-{name}-div-rank-{tag}"}
         # natural scales: |K||grad p| * face area for fluxes, |grad p| * extent (or the pressure level) for pressures
         na = float(np.linalg.norm(a))
         sU = float(np.abs(K3).max()) * na
